@@ -638,6 +638,12 @@ def run(prop, ops_path, impl_path, profile):
             LAST_COUNT[0] += 1
             if "forget" in opl:
                 case.forgot = True
+            # `*dst = src.clone()` / `*dst = &a - &b`: the destination register now holds a container
+            # of the source's capacity
+            if op == "clone" and len(toks) >= 3 and t["outcome"] == "ok":
+                case.caps[toks[2]] = case.caps[reg]
+            if op == "sub" and len(toks) >= 4 and t["outcome"] == "ok":
+                case.caps[toks[3]] = case.caps[reg]
             if "struct" in fam:
                 for r2, sn in t["snaps"].items():
                     check_struct(case, r2, sn, fam, fails)
